@@ -381,7 +381,8 @@ def _consts(w, lists, flows, resps, fops, early, mset, mfile, mflow, stages=(0, 
             "Flows": frozenset(tlaval.FrozenDict(f) for f in flows),
             "Resps": frozenset(tlaval.FrozenDict(r) for r in resps),
             "FileOps": frozenset(tlaval.FrozenDict(o) for o in fops),
-            "EarlyRespond": early, "EnvStages": frozenset(stages), "MaxSet": mset, "MaxFile": mfile, "MaxFlow": mflow}
+            "EarlyRespond": early, "EmptyRuleIndexError": False, "RollbackReparses": False, "StreamedTypeError": False,
+            "EnvStages": frozenset(stages), "MaxSet": mset, "MaxFile": mfile, "MaxFlow": mflow}
 
 
 class _Master:
@@ -431,8 +432,8 @@ class Check(core.PropertyCheck):
         "map_local directories hold special-character names only in their escaped form (we_rd, beta_k=v), never both "
         "forms; capturing groups are a trailing (.*) / (.+); file contents identify files (a served body is mapped back "
         "to tokens)",
-        "findings F1-F3 (findings_proposed/X03.md) are reported as violations until their entries are in "
-        "known_findings.json; self-tests register them with VERIF_KF",
+        "findings F1-F3 (findings_proposed/X03.md) are repaired in /repo; the model's constants EmptyRuleIndexError, "
+        "RollbackReparses, StreamedTypeError are FALSE (repaired code), the reverts are mutants M15-M17",
     )
 
     # ---- model runs -------------------------------------------------------------------------------------------
